@@ -61,7 +61,7 @@ def npAllEq (a b : List Fl) : Option Bool :=
 inductive DType
   | bool | int8 | int16 | int32 | int64 | uint8 | uint16 | uint32 | uint64
   | float16 | float32 | float64 | float128 | complex64 | complex128 | complex256
-  | bytes | str
+  | bytes (width : Nat) | str (width : Nat)   -- 'S<width>' / 'U<width>'
   deriving DecidableEq, Repr
 
 /-! ## hash keys -/
@@ -484,6 +484,9 @@ inductive Res
   | prod (sameParts : Bool) (parts : List Res)
   | errValue   -- ValueError (shape / length mismatch)
   | errType    -- TypeError
+  /-- the input values are outside the range on which the conversion is modelled exactly
+  (see `castVal?`): no statement -/
+  | outside
   deriving Repr
 
 /-- Tables about dtypes that are regenerated from the live module (`Gen/DTypeTables.lean`). -/
@@ -508,6 +511,23 @@ def castVal (T : DTables) (d : DType) (r : Rat) : Rat :=
   else if T.isInt d then truncRat r
   else r
 
+def DType.isUnsigned : DType → Bool
+  | .uint8 | .uint16 | .uint32 | .uint64 => true
+  | _ => false
+
+/-- Values on which `np.array(values, dtype=d)` is modelled exactly for EVERY numeric `d`:
+dyadic with at most 11 significant bits (exact in float16 and wider) and of magnitude below
+128 (fits int8 / uint8 after truncation). -/
+def smallDyadic (r : Rat) : Bool :=
+  decide (1024 % r.den = 0) && decide (r.num.natAbs < 2048) && decide (-128 < r) && decide (r < 128)
+
+/-- `castVal` where it is exact; `none` outside (negative → unsigned wraps around, large or
+non-dyadic values are rounded / overflow in NumPy: not modelled). -/
+def castVal? (T : DTables) (d : DType) (r : Rat) : Option Rat :=
+  if !smallDyadic r then none
+  else if d.isUnsigned && decide (r < 0) then none
+  else some (castVal T d r)
+
 /-- `ndmin=self.ndim`: NumPy prepends axes of length 1. -/
 def padShape (ndim : Nat) (shape : List Nat) : List Nat :=
   List.replicate (ndim - shape.length) 1 ++ shape
@@ -529,7 +549,9 @@ def TSpace.element (T : DTables) (S : TSpace) (forced : Bool) (inp : Inp) : Res 
         | _ => .errValue)          -- ragged sequence: NumPy raises ValueError
     | some (nd, sh, dt, v) =>
       if padShape S.shape.length sh = S.shape then
-        .tensor S.dtype S.shape (v.map (castVal T S.dtype)) (nd && decide (dt = S.dtype))
+        match v.mapM (castVal? T S.dtype) with
+        | some v' => .tensor S.dtype S.shape v' (nd && decide (dt = S.dtype))
+        | none => .outside
       else .errValue
 
 /-- `DiscretizedSpace.element(inp, order=…)` for non-callable `inp is not None`. -/
@@ -539,6 +561,7 @@ def Discr.element (T : DTables) (S : Discr) (forced : Bool) (inp : Inp) : Res :=
   else match S.tspace.element T forced inp with
     | .errValue => .errValue
     | .errType => .errType
+    | .outside => .outside
     | r => .discr false r
 
 /-- `len(inp)` / `list(inp)` as `ProductSpace.element` uses them: the parts of a product
@@ -579,6 +602,7 @@ def Space.elementL (T : DTables) : List Space → List Inp → List Res → Res
   | s :: l, p :: ps, acc => match Space.element T s p with
       | .errValue => .errValue
       | .errType => .errType
+      | .outside => .outside
       | r => Space.elementL T l ps (r :: acc)
   | _, _, acc => .prod false acc.reverse
 end
@@ -725,12 +749,46 @@ def Space.pindex : Space → PIdx → Option Space
   | .prod l w f, .list idx => (selList l idx).map fun l' => .prod l' (selW w) f
   | _, _ => none
 
-/-- `NumpyTensorSpace.byaxis[indices]` for spaces without array weighting: the shape entries
-selected, same dtype, same weighting object.  (An integer index yields a 1-axis space.) -/
-def TSpace.byaxis (t : TSpace) : PIdx → Option TSpace
-  | .int i => (t.shape[i]?).map fun n => ⟨[n], t.dtype, t.w⟩
-  | .slice s => some ⟨selSlice t.shape s, t.dtype, t.w⟩
-  | .list idx => (selList t.shape idx).map fun sh => ⟨sh, t.dtype, t.w⟩
+/-- shape of `arr[indices]` for an array of shape `sh` indexed ALONG ITS FIRST AXIS by an
+integer, a slice (`flen` = `len(range(*slice.indices(sh[0])))`: the SAME Python slice
+normalised against the first axis instead of against the number of axes) or a list of
+in-range integers; `none` = IndexError -/
+def firstAxisIndexShape (sh : List Nat) (flen : Nat) : PIdx → Option (List Nat)
+  | .int i => match sh with
+      | n :: rest => if i < n then some rest else none
+      | [] => none
+  | .slice _ => match sh with
+      | _ :: rest => some (flen :: rest)
+      | [] => none
+  | .list idx => match sh with
+      | n :: rest => if idx.all (· < n) then some (idx.length :: rest) else none
+      | [] => none
+
+/-- the shape entries selected by `byaxis[indices]` (`none` = IndexError) -/
+def selShape (sh : List Nat) : PIdx → Option (List Nat)
+  | .int i => (sh[i]?).map fun n => [n]
+  | .slice s => some (selSlice sh s)
+  | .list idx => selList sh idx
+
+/-- `NumpyTensorSpace.byaxis[indices]` as coded: the shape entries selected, same dtype; the
+weighting object is passed on, EXCEPT for an array weighting, where the code builds
+`NumpyTensorSpaceArrayWeighting(space.weighting.array[indices], exponent)` — the weight array
+indexed along its FIRST axis by the AXIS index — and the constructor then rejects it unless
+its shape happens to equal the new shape (`fresh`: identity token of the new array).
+`none` = raises. -/
+def TSpace.byaxis (T : DTables) (t : TSpace) (idx : PIdx) (fresh : Nat) (flen : Nat := 0) :
+    Option TSpace :=
+  match selShape t.shape idx with
+  | none => none
+  | some newShape =>
+    -- non-numeric spaces accept no `weighting`: `type(space)(newshape, dtype, exponent=…)`
+    if !T.isNumeric t.dtype then some ⟨newShape, t.dtype, .const .np (.fin 1) t.w.exponent⟩ else
+    match t.w with
+    | .array _ _ e =>
+      (match firstAxisIndexShape t.shape flen idx with
+       | none => none
+       | some wsh => if wsh = newShape then some ⟨newShape, t.dtype, .array .np fresh e⟩ else none)
+    | w => some ⟨newShape, t.dtype, w⟩
 
 /-- Space of `x[indices]` for a `NumpyTensor` `x` when the result is not a scalar:
 `type(space)(arr.shape, dtype, exponent=space.exponent, weighting=w)` with `w` the weighting
